@@ -54,7 +54,8 @@ for t in tests:
     res["tests"][t] = "rc=%d" % r.returncode
     print("test %s -> rc=%d %s" % (t, r.returncode, r.stdout.strip().split("\n")[-1][:100]))
 shutil.rmtree(bdir, ignore_errors=True)
-env = dict(os.environ, VERIF_REPO=wt)
+os.makedirs("/tmp/try_seed_evidence", exist_ok=True)
+env = dict(os.environ, VERIF_REPO=wt, VERIF_EVIDENCE_DIR="/tmp/try_seed_evidence")
 t0 = time.time()
 c = subprocess.run(["python3", "/verif/checks/check.py", prop, "--tier", "quick"], stdout=subprocess.PIPE, stderr=subprocess.STDOUT, text=True, env=env, cwd="/verif")
 res["check_rc"] = c.returncode
